@@ -5,6 +5,9 @@ CHECKS = {
         "race": False,
         "shards": {"quick": 4, "thorough": 16},
         "level": "exploration",
+        "technique": "runtime monitor: substring oracle on ElideError/ElideAddr output over generated error trees and errors produced by the standard library",
+        "level_text": "Exploration: every chain of <=3 (quick) / <=4 (thorough) wrappers of 20 kinds around 25 leaf kinds is enumerated completely, deeper chains and address strings are sampled by PRNG, and errors built by the real net package (dial syntax errors, refused connects, Go resolver over a scripted failing transport) are included; the oracle is exact (secret tokens are unique strings). Right level: the function is pure, so the only uncertainty is which inputs were tried.",
+        "level_note": "Trusts that distinctive tokens cannot appear in the output by accident; error types outside the standard library are not generated.",
         "require_counters": ["trees_with_secrets", "controls_secret_visible_in_original", "real_errors", "addr_strings"],
         "assumptions": [
             "secret tokens are placed only in the address-bearing fields of the standard error types (and, for errors produced by the standard library itself, wherever net put them)",
@@ -12,3 +15,9 @@ CHECKS = {
         ],
     },
 }
+
+# /repo commits that add tag-guarded hook files (MANIFEST.hooks.source_commits)
+HOOK_COMMITS = []
+
+# properties this technique family cannot decide (none so far)
+NOT_APPLICABLE = {}
